@@ -272,7 +272,6 @@ bus0_sock_send(void *arg, nni_aio *aio)
 
 	msg = nni_aio_get_msg(aio);
 	len = nni_msg_len(msg);
-	nni_aio_set_msg(aio, NULL);
 
 	// this test is so that we detect when the aio itself is terminated,
 	// otherwise we could loop forever.
@@ -292,9 +291,11 @@ bus0_sock_send(void *arg, nni_aio *aio)
 	nni_mtx_lock(&s->mtx);
 
 	if (!nni_aio_start(aio, NULL, NULL)) {
+		// the message stays with the caller
 		nni_mtx_unlock(&s->mtx);
 		return;
 	}
+	nni_aio_set_msg(aio, NULL);
 
 	NNI_LIST_FOREACH (&s->pipes, pipe) {
 
